@@ -68,10 +68,11 @@ class RefMap:
 
 
 def parse_line(line):
-    """ok <out...> | size | shape ;; events"""
+    """ok <out...> | size | comparator calls | shape ;; events"""
     head, rest = line.split('|', 1)
     out = head.split()[1:]
-    size_s, rest2 = rest.split('|', 1)
+    size_s, rest1 = rest.split('|', 1)
+    _cmps, rest2 = rest1.split('|', 1)
     shape, _, ev = rest2.partition(';;')
     return out, int(size_s), shape.strip(), ev.strip()
 
@@ -127,10 +128,19 @@ class C08(Spec):
             if 'MALFORMED' in shape or 'BADITER' in line:
                 return ('%s:malformed' % name, 'after operation %d (%s): %s' % (i, op, line))
             if isinstance(exp, tuple):
+                # per callback: key, val, number of live heap blocks at the time of the call
                 got = [int(x) for x in out if re.match(r'-?\d+$', x)]
-                pairs = sorted(zip(got[0::2], got[1::2]))
+                if len(got) % 3:
+                    return ('clear:garbled', 'callback log %s' % (out,))
+                pairs = sorted(zip(got[0::3], got[1::3]))
                 if pairs != sorted(exp[1]):
                     return ('clear:wrong-callbacks', 'clear called back with %s, held %s' % (pairs, sorted(exp[1])))
+                # the node of an entry is released only after the user callback for it has returned:
+                # at the i-th callback exactly i of the n nodes have been freed
+                lives = got[2::3]
+                if lives != [len(pairs) - j for j in range(len(pairs))]:
+                    return ('clear:free-before-callback', 'live blocks seen by the callbacks of clear: %s, expected %s' % (
+                        lives, [len(pairs) - j for j in range(len(pairs))]))
             else:
                 got = [int(x) for x in out]
                 if got != exp:
@@ -150,10 +160,10 @@ class C08(Spec):
     def closure(self, tier):
         if tier == 'quick':
             cases, st = self.bfs([4, 60000, 0])
-            c2, st2 = self.bfs([3, 60000, 1])
+            c2, st2 = self.bfs([3, 60000, 2])
         else:
             cases, st = self.bfs([6, 400000, 0])
-            c2, st2 = self.bfs([4, 400000, 1])
+            c2, st2 = self.bfs([4, 400000, 2])
         cases += c2
         return cases, dict(states=st.get('states', 0) + st2.get('states', 0),
                            transitions=st.get('transitions', 0) + st2.get('transitions', 0),
@@ -199,3 +209,114 @@ class C08(Spec):
 
 
 SPEC = C08()
+
+
+# ---------------------------------------------------------------- C15: clear x every closure state + refill
+
+def c15_part(clear_cases):
+    class MapClear(C08):
+        pid = 'C15'
+
+        def corpus(self):
+            return []
+
+        def closure(self, tier):
+            def refill(c):
+                # reusable like a fresh map: nothing left allocated, new entries, lookups, existing key, second clear
+                return ['live', 'size', 'find 1', 'insert 1 0', 'insert 0 1', 'find 1', 'insert 1 1', 'size',
+                        'clear', 'live']
+            return clear_cases(C08(), tier, refill)
+
+        def random_cases(self, tier, seed):
+            cs = C08.random_cases(self, tier, seed)
+            out = []
+            for c in cs[: (100 if tier == 'quick' else 1500)]:
+                # the generated histories end in clear + live
+                out.append(Case(c.name, c.header, c.ops + ['insert 2 7', 'insert 1 8', 'insert 2 9', 'size', 'find 2',
+                                                           'clear', 'live'], 'random'))
+            return out
+    return MapClear()
+
+
+# ---------------------------------------------------------------- C16: base scripts for exhaustive fault injection
+
+def c16_spec():
+    return C08()
+
+
+def c16_base_cases(tier, seed):
+    """scripts without fail headers: inserts of new and existing keys, finds, erases, continued use, final
+    clear + leak audit.  checks/c16.py derives the failing variants (each single request, each suffix, pairs,
+    triples for short scripts) from the number of allocation requests of the fault-free run."""
+    tail = ['size', 'clear', 'live']
+    bases = [
+        # ascending (the hinted insert always goes right), re-insert, lookups, erases, continued use
+        ([], ['insert 0 0', 'insert 1 1', 'insert 2 2', 'insert 3 3', 'insert 4 4', 'insert 5 5', 'insert 2 9',
+              'find 0', 'find 5', 'find 6', 'erase 1', 'erase 4', 'erase 4', 'insert 4 6', 'insert 6 7', 'size',
+              'find 4'] + tail),
+        # descending
+        ([], ['insert 5 0', 'insert 4 1', 'insert 3 2', 'insert 2 3', 'insert 1 4', 'insert 0 5', 'insert 3 9',
+              'erase 5', 'erase 0', 'find 3', 'insert 5 6', 'erase 3', 'find 3', 'insert 3 7'] + tail),
+        # zigzag, keys colliding modulo 4, existing-key inserts between the new ones
+        (['cmpmod 4'], ['insert 3 0', 'insert 0 1', 'insert 7 2', 'insert 2 3', 'insert 4 4', 'insert 1 5',
+                        'find 5', 'find 6', 'erase 6', 'insert 6 6', 'erase 3', 'insert 11 7', 'find 3'] + tail),
+        # short (triples are enumerated): insert, erase, insert again
+        ([], ['insert 1 0', 'insert 0 1', 'erase 1', 'insert 2 2', 'insert 1 3', 'find 1', 'erase 0', 'insert 0 4']
+         + tail + ['insert 0 0', 'find 0', 'clear_nocb', 'live']),
+        # keys and values as integer-valued pointers (key 0 / value 0 are NULL), iterator-less calls
+        (['ptrrep 1'], ['insert_noiter 0 0', 'insert 2 0', 'insert_noiter 1 3', 'find 0', 'insert 0 5',
+                        'erase_noiter 0', 'find 0', 'insert 0 1', 'erase 2', 'erase_noiter 2', 'insert_noiter 3 2']
+         + tail),
+        # fill, drain completely, fill again
+        (['cmpmode 1'], ['insert 2 0', 'insert 0 1', 'insert 3 2', 'insert 1 3', 'erase 0', 'erase 1', 'erase 2',
+                         'erase 3', 'size', 'live', 'insert 1 4', 'insert 0 5', 'find 0', 'find 2'] + tail),
+        # clear in the middle, without callback, then reuse
+        (['cmpmode 2'], ['insert 4 0', 'insert 2 1', 'insert 6 2', 'clear_nocb', 'live', 'insert 2 3', 'insert 4 4',
+                         'insert 3 5', 'erase 4', 'find 3'] + tail),
+    ]
+    rnd = random.Random(seed * 7919 + 16)
+    for ri in range(2 if tier == 'quick' else 5):
+        nk = rnd.choice([5, 8])
+        ops = []
+        nv = 0
+        for _ in range(rnd.choice([14, 20])):
+            k = rnd.randrange(nk)
+            o = rnd.choice(['insert', 'insert', 'insert', 'insert_noiter', 'find', 'erase', 'erase_noiter', 'size'])
+            if o.startswith('insert'):
+                ops.append('%s %d %d' % (o, k, nv % 250))
+                nv += 1
+            elif o == 'size':
+                ops.append(o)
+            else:
+                ops.append('%s %d' % (o, k))
+        bases.append((['cmpmod 7'] if ri % 2 else [], ops + tail))
+    return [Case('b%d' % i, h, ops, 'base') for i, (h, ops) in enumerate(bases)]
+
+
+MANIFEST = dict(
+    text='Coq theorems (Properties_C08.v) over an executable transcription of src/map.c on top of the red-black tree model '
+         'and the allocator model, for every comparison order on keys (distinct key pointers may compare equal) and every '
+         'allocator oracle: the invariant map_inv (canonical keys strictly increasing in tree order = exactly one entry per '
+         'key; red-black rules; node memory exactly for the linked nodes; size field = number of entries; live heap blocks '
+         '= exactly the nodes, 48 bytes each; no block freed twice) is preserved by every operation, so it holds in every '
+         'reachable state, and no operation can fault. Every operation refines an association list with unique keys: insert '
+         'of an existing key returns 1, the iterator carries the stored pointers and the whole state (tree, node memory, '
+         'heap) is untouched; a new key returns 0 and lands at its place in key order (the parent reported by find is a '
+         'correct hint: the hinted red-black insert builds the tree of the unhinted one); failed allocation returns -1, end '
+         'iterator, nothing but the heap\'s request counter/log changes; find returns the stored pointers or the end '
+         'iterator; erase (by key or by iterator) returns 0 with the stored pointers, unlinks and frees exactly that node, -1 '
+         'and end iterator if absent; size = number of entries; clear calls back with a permutation of the entries (each '
+         'exactly once, node freed right after its callback), frees every node once and leaves the initial map with no live '
+         'block. Lifted to every operation list (run). Tied to the code on every run by differential execution: closure of '
+         'the model over a small key universe (with colliding keys, NULL-valued key/value pointers, and failing allocators) + '
+         'seeded random histories, against the library under ASan/UBSan with intercepted malloc/free, comparing results, '
+         'size, tree shape with colours, stored pointers and allocator events; an independent dict oracle checks the property '
+         'text on the implementation trace.',
+    note='trusted: Coq kernel; hand transcription of map.c into MapModel.v (and of rbtree.c/bintree.c into TreeModel.v) '
+         'validated only by the correspondence run; the key comparison callback is modelled as an integer order on key ids '
+         '(sign only); extraction (ExtrOcamlBasic) + OCaml runner; C driver (includes map.c to decode nodes), halloc.h '
+         'interception with the policy of AllocModel.v; parent links are checked on the implementation at every explored '
+         'state, not proved; closure states are explored up to renaming of heap block ids',
+    technique='Coq proof (invariant + refinement to an association list, on top of the C01/C02 lemmas: find spec, in-order '
+              'effect of hinted insert and erase, red-black preservation, clear log) + model/code differential correspondence',
+    design='6 (C08)')
